@@ -233,7 +233,12 @@ def run_js(src, opts=None, ctx=None):
     ids = {}
     log = []
     if opts.get("log", True):
+        max_log = opts.get("max_log", 500)
+
         def _log(*args):
+            if len(log) >= max_log:
+                r.abort_reason = "log_budget"
+                raise VerifAbort("log_budget")
             log.append([enc(a, ids) for a in args])
             if opts.get("stamp"):
                 log[-1].append(["tick", r.ticks])
